@@ -19,7 +19,9 @@ def run_harnesses(sc, crate, harnesses, timeout_s=900, mem_gb=24, extra_args=(),
     env = dict(os.environ)
     env.update(OFFLINE_ENV)
     t0 = time.time()
-    shell = "ulimit -v %d; exec %s" % (mem_gb * 1024 * 1024 * max(1, jobs), " ".join("'%s'" % c for c in cmd))
+    # no `ulimit -v`: CBMC's SAT back end reports "out of memory" against the *virtual* size long before the
+    # resident set matters; runs are bounded by the timeout instead (62 GB machine, harnesses peak at 2-4 GB)
+    shell = "exec %s" % " ".join("'%s'" % c for c in cmd)
     try:
         p = subprocess.run(["bash", "-c", shell], cwd=sc.w, env=env, capture_output=True, text=True, timeout=timeout_s)
     except subprocess.TimeoutExpired as e:
